@@ -107,16 +107,19 @@ def check_C10(tier, seed, t0):
                                  detail="a fill of %s x 0x%s is sent as %s bytes" % (b[1], uni(a), a[1]),
                                  replay=dict(kind='correspondence', panel=m['panel'], feat=m['feat'], suite=m['suite'], case=m['case'],
                                              op_index=m['opidx'], op=m['op'], first_diff=fd, script=m['script'])))
+    bv, bn = big_property_check('C10', seed, tier)
+    viol += bv
     viol.sort(key=lambda v: 1 if v.get('no_input') else 0)
     if not proof['ok']:
         viol.append(proof_violation('C10', proof))
     cov = base_coverage(run)
     cov['oracle_ops_scanned'] = n
-    cov['rule'] = "every op of every generated script (27 drivers x 3 feature sets) run on the real crate; wire projection (D/C events, transfer boundaries, bytes) compared with the model; every real transfer checked for D/C-low => 1 byte, D/C driven before, size <= 4096"
+    cov['big_ops_judged'] = bn
+    cov['rule'] = "every op of every generated script (27 drivers x 3 feature sets) run on the real crate; wire projection (D/C events, transfer boundaries, bytes) compared with the model; every real transfer checked for D/C-low => 1 byte, D/C driven before, size <= 4096; the 12.48in driver (own bus / chip-select / D/C handling): the same three clauses on its real traces (windows up to a whole sub-display with full buffers) + framing projection (D/C level, transfer length per write) compared with Big/Model.v"
     cov['distinct_nontrivial'] = cov['evaluations']
     return finish('C10', tier, seed, t0, proof, viol, cov,
                   ["theorems are about Hal.expand (transcription of src/interface.rs); tie = wire-projection correspondence",
-                   "Linux chunking branch only (cfg!(target_os = linux))", "12.48in driver: see C15"])
+                   "Linux chunking branch only (cfg!(target_os = linux))", "12.48in driver: framing clauses judged on its real traces and compared with Big/Model.v on the framing projection (pin/select theorems: C15)"])
 
 # ---------------------------------------------------------------------------------------------- pure properties
 U32 = 1 << 32
@@ -663,6 +666,32 @@ def big_expected_tiling(win, buf):
             exp[c].append(buf[off: off + (c1 - c0)])
     return exp
 
+def big_c15_project(lines):
+    """what C15 is about, independent of how a byte stream is cut into transfers and of timing: for every SPI write the
+    levels of all chip-select and D/C lines while it is on the bus, with consecutive data writes under unchanged levels
+    concatenated (length + hash); bus reads; the levels all lines are left at."""
+    pins, out = {}, []
+    def snap():
+        return tuple(pins.get(k) for k in ('m1_cs', 's1_cs', 'm2_cs', 's2_cs', 'm1s1_dc', 'm2s2_dc'))
+    for l in lines:
+        t = l.split(' ')
+        if t[0] == 'N':
+            pins[t[1]] = int(t[2])
+            if t[1].endswith('_rst'):
+                out.append(('rst', t[1], int(t[2])))
+        elif t[0] in ('W', 'WX'):
+            sn = snap()
+            n, h1, h2 = int(t[1]), (int(t[2]) if len(t) > 2 else 0), (int(t[3]) if len(t) > 3 else 0)
+            if t[0] == 'W' and out and out[-1][0] == 'W' and out[-1][1] == sn and sn[4] == 1 and sn[5] == 1:
+                _, _, n0, a1, a2 = out[-1]
+                out[-1] = ('W', sn, n0 + n, (a1 * pow(corr.B1, n, corr.P1) + h1) % corr.P1, (a2 * pow(corr.B2, n, corr.P2) + h2) % corr.P2)
+            else:
+                out.append((t[0], sn, n, h1, h2))
+        elif t[0] == 'S' and t[1] != 'flush':
+            out.append(('S', snap(), l))
+    out.append(('end', snap()))
+    return out
+
 def big_oracle(script_text, real_text):
     """C15 clauses evaluated on the REAL traces of the 12.48in driver"""
     viol = []
@@ -744,12 +773,21 @@ def big_oracle(script_text, real_text):
                 if wn and wn[0] % 8 == 0 and wn[2] % 8 == 0 and wn[2] > 0 and wn[3] > 0 and wn[0] + wn[2] <= 1304 and wn[1] + wn[3] <= 984 \
                         and int(n) > 0 and int(n) % (wn[2] // 8) == 0:
                     exp = big_expected_tiling(wn, big_gen_buf(int(n), kind, int(sd)))
+                    def cat(parts):
+                        # (length, hash) of the concatenation: how the stream is cut into transfers is C10's business, not C15's
+                        n0, a1, a2 = 0, 0, 0
+                        for (n1, h1, h2) in parts:
+                            a1 = (a1 * pow(corr.B1, n1, corr.P1) + h1) % corr.P1
+                            a2 = (a2 * pow(corr.B2, n1, corr.P2) + h2) % corr.P2
+                            n0 += n1
+                        return (n0, a1, a2)
                     for c in ('s2', 'm2', 'm1', 's1'):
                         want = [(len(b),) + big_hash(b) for b in exp[c]]
-                        if got[c] != want:
+                        if cat(got[c]) != cat(want):
+                            # locate the first differing row when the driver writes row by row (as the unmodified one does)
                             k = next((j for j, (a, b) in enumerate(zip(got[c], want)) if a != b), min(len(got[c]), len(want)))
-                            bad('tiling', "chip %s window %s buffer %s: data write #%d differs from the window bytes this chip owns (%d writes sent, %d expected)" % (
-                                c, wn, toks[1], k, len(got[c]), len(want)))
+                            bad('tiling', "chip %s window %s buffer %s: the %d bytes sent differ from the %d window bytes this chip owns, in order (first differing write: #%d of %d)" % (
+                                c, wn, toks[1], cat(got[c])[0], cat(want)[0], k, len(got[c])))
                             break
             if okres and name in ('write_data1_partial', 'write_data2_partial', 'refresh_display_partial', 'begin_refresh_display_partial'):
                 try:
@@ -803,6 +841,76 @@ def big_project(lines, kind):
             if e[0] == 'rst' or e[0] == 'cmd':
                 out.append(e)
     return out
+
+def big_frame_project(lines):
+    """framing of the 12.48in bus traffic: (D/C level of the selected chips, transfer length) per SPI write"""
+    pins, out = {}, []
+    for l in lines:
+        t = l.split(' ')
+        if t[0] == 'N':
+            pins[t[1]] = int(t[2])
+        elif t[0] in ('W', 'WX'):
+            need = {('m1s1_dc' if c in ('m1', 's1') else 'm2s2_dc') for c in BIG_CHIPS if pins.get(c + '_cs') == 0}
+            out.append((tuple(pins.get(d) for d in sorted(need)), t[0], int(t[1])))
+    return out
+
+def big_frame_oracle(script_text, real_text):
+    """C10 on the REAL traces of the 12.48in driver (it drives bus, chip selects and D/C lines itself): a transfer with
+    the D/C lines low is one byte, both D/C lines were driven before the transfer they qualify and agree, no transfer
+    exceeds 4096 bytes."""
+    viol, nops = [], 0
+    R = corr.parse_out(real_text)
+    heads = {}
+    for line in script_text.split('\n'):
+        if line.startswith('case '):
+            heads[line.split(' ')[1]] = line
+    for cid, ops in R.items():
+        pins = {}
+        cidk = cid.split(' ')[0]
+        for (i, name, lines, res) in ops:
+            nops += 1
+            clause = None
+            for l in lines:
+                t = l.split(' ')
+                if t[0] == 'N':
+                    pins[t[1]] = int(t[2])
+                elif t[0] in ('W', 'WX'):
+                    n = int(t[1])
+                    # the D/C line(s) of the chips the transfer is addressed to (chip select low)
+                    need = {('m1s1_dc' if c in ('m1', 's1') else 'm2s2_dc') for c in BIG_CHIPS if pins.get(c + '_cs') == 0}
+                    lv = [pins.get(d) for d in sorted(need)]
+                    a = lv[0] if lv else None
+                    if not lv:
+                        pass            # addressed to no chip: nothing is qualified (chip-select discipline: C15)
+                    elif any(x is None for x in lv):
+                        clause = 'dc-not-driven-before-transfer'
+                    elif len(set(lv)) > 1:
+                        clause = 'dc-lines-disagree'
+                    elif a == 0 and n != 1:
+                        clause = 'command-transfer-of-%d-bytes' % n
+                    elif n > 4096:
+                        clause = 'transfer-of-%d-bytes' % n
+                    if clause:
+                        break
+            if res is not None and res.startswith('PANIC'):
+                break       # the call was refused / died half-way (malformed argument): lines are left as they were; later calls are not judged
+            if clause:
+                viol.append(dict(panel='epd12in48b_v2', site=name, clause=clause,
+                                 detail="%s: call #%d %s: %s" % (heads.get(cidk, cid), i, name, clause),
+                                 replay=dict(kind='trace', panel='epd12in48b_v2', feat='v3', op_index=i,
+                                             script=case_script_text(script_text, cidk))))
+    return viol, nops
+
+def case_script_text(script_text, cid):
+    out, on = [], False
+    for line in script_text.split('\n'):
+        if line.startswith('case '):
+            on = line.split(' ')[1] == cid
+        if on:
+            out.append(line)
+            if line.strip() == 'end':
+                break
+    return '\n'.join(out)
 
 def big_state_oracle(script_text, real_text):
     """C05 / C09 clauses evaluated on the REAL traces of the 12.48in driver, per controller:
@@ -875,7 +983,7 @@ def big_property_check(prop, seed, tier):
     """correspondence of the 12.48in driver on the property's projection + the state oracle -> violations, stats"""
     import subprocess, glob as _g
     from panels import BIG
-    kind = {'C05': 'busy', 'C09': 'power'}[prop]
+    kind = {'C05': 'busy', 'C09': 'power', 'C10': 'frame'}[prop]
     viol = []
     hexe, err = corr.build_harness('v3')
     mexe, log = corr.build_model()
@@ -887,11 +995,20 @@ def big_property_check(prop, seed, tier):
     nor = 0
     for sp in sorted(_g.glob(os.path.join(vlib.WORK, '%s-epd12in48b_v2-v3-*.script' % tag))):
         r = subprocess.run([hexe, 'run', sp], stdout=subprocess.PIPE, stderr=subprocess.PIPE, text=True, env=dict(corr.ENV, EPD_FEAT='v3'))
-        v5, v9, n = big_state_oracle(open(sp).read(), r.stdout)
-        viol += v5 if prop == 'C05' else v9
+        if prop == 'C10':
+            vf, n = big_frame_oracle(open(sp).read(), r.stdout)
+            viol += vf
+        else:
+            v5, v9, n = big_state_oracle(open(sp).read(), r.stdout)
+            viol += v5 if prop == 'C05' else v9
         nor += n
+    flagged = {v['site'] for v in viol}
     for m in mism:
-        if big_project(m.real, kind) != big_project(m.model, kind):
+        if kind == 'frame':
+            differs = big_frame_project(m.real) != big_frame_project(m.model) and m.opname not in flagged
+        else:
+            differs = big_project(m.real, kind) != big_project(m.model, kind)
+        if differs:
             viol.append(dict(panel='epd12in48b_v2', site=m.opname, clause='correspondence-' + kind, no_input=True,
                              detail="12.48in model and implementation differ on the %s projection (real %s, model %s)" % (kind, m.rres, m.mres),
                              replay=dict(kind='correspondence', panel='epd12in48b_v2', case=m.cid, op_index=m.opidx, op=m.opname, script=m.script)))
@@ -928,6 +1045,8 @@ def check_C15(tier, seed, t0):
         cov['oracle_ops_scanned'] = norc
         flagged = {v['site'] for v in viol}
         for m in mism:
+            if big_c15_project(m.real) == big_c15_project(m.model) and m.rres == m.mres:
+                continue        # differs only in timing / in how a stream is cut into transfers: C05 / C10, not C15
             viol.append(dict(panel='epd12in48b_v2', site=m.opname, clause='correspondence-wire', no_input=True,
                              detail="model and implementation differ (real %s, model %s); first differing line: %s" % (m.rres, m.mres, corr.first_diff(m.real, m.model)),
                              replay=dict(kind='correspondence', panel='epd12in48b_v2', case=m.cid, op_index=m.opidx, op=m.opname, script=m.script)))
